@@ -45,6 +45,8 @@ Definition expand (body pc : nat) (i : instr) : list micro :=
   | IArcGetMut k i => [MArcGetMut k i false]
   | IArcTryUnwrap k i => [MArcGetMut k i true]
   | ITrackDrop k => [MTrackDrop k]
+  | ITlsWith k => [MTlsWith k]
+  | ILazyGet k => [MLazyGet k]
   | IPanic => [MPanic]
   | IExplore => [MExplore]
   | IStopExploring => [MStop]
@@ -103,7 +105,7 @@ Definition init_exec (p : prog) (pa : path) : exec :=
          (map hobj_of_decl (p_decls p))
          (repeat None (length (p_bodies p)))
          (repeat false (length (p_bodies p)))
-         [] bodies.
+         [] bodies (Some []).
 
 Inductive iter_end :=
   | IterDone                      (* all threads terminated *)
